@@ -139,7 +139,7 @@ Theorem C09_decode_encode : forall fp o sizes inp bs inflate,
   exists ids outs sum data kept,
     bw_collect fp o sizes inp = Ok (ids, outs, sum, data)
     /\ incl kept (zoom_sizes_single o) /\ inc_from 0 kept
-    /\ decode bs inflate = Some (content_of fp o sizes ids outs sum kept).
+    /\ decode bs inflate = Some (content_of fp o sizes ids outs sum 0 kept).
 Proof.
   intros fp o sizes inp bs inflate H Ho Hi Hs Hn Hsort Hu.
   apply (bw_write_decodes fp o sizes inp bs true inflate H Ho Hi Hs Hn); [|exact Hu].
@@ -156,7 +156,7 @@ Theorem C09_decode_encode_multipass : forall fp o sizes inp bs inflate,
   exists ids outs sum data kept,
     bw_collect fp o sizes inp = Ok (ids, outs, sum, data)
     /\ inc_from 0 kept
-    /\ decode bs inflate = Some (content_of fp o sizes ids outs sum kept).
+    /\ decode bs inflate = Some (content_of fp o sizes ids outs sum 0 kept).
 Proof.
   intros fp o sizes inp bs inflate H Ho Hi Hs Hn Hsort Hu.
   apply (bw_write_multipass_decodes fp o sizes inp bs true inflate H Ho Hi Hs Hn); [|exact Hu].
@@ -164,6 +164,49 @@ Proof.
   exact (sorted_names_increasing fp o sizes inp ids outs sum data Hsort Hcol).
 Qed.
 Print Assumptions C09_decode_encode_multipass.
+
+(* the same for compressed files, for EVERY compressor (DESIGN.md §3.3): the writer model with its
+   blocks compressed by an arbitrary [compress] whose outputs are non-empty, decoded with any inflate
+   oracle that inverts [compress] on the byte ranges of the file that hold a compressed block, gives the
+   same content, with uncompressBufSize > 0 (and < 2^32) instead of 0 *)
+Theorem C09_decode_encode_compressed : forall compress fp o sizes inp bs inflate,
+  bw_write_z compress fp o sizes inp = Ok bs -> opts_ok o -> input_ok sizes inp -> Nlen bs < U64 ->
+  Forall (fun c : name => c <> []) (map fst (runs inp)) ->
+  o_sort_all o = true ->
+  Forall (fun z => z < W32) (zoom_sizes_single o) ->
+  (forall b, compress b <> []) -> (o_compress o = true -> inflate_ok compress bs inflate) ->
+  exists ids outs sum data kept ubuf,
+    bw_collect fp o sizes inp = Ok (ids, outs, sum, data)
+    /\ incl kept (zoom_sizes_single o) /\ inc_from 0 kept /\ (ubuf = 0 <-> o_compress o = false)
+    /\ decode bs inflate = Some (content_of fp o sizes ids outs sum ubuf kept).
+Proof.
+  intros compress fp o sizes inp bs inflate H Ho Hi Hs Hn Hsort Hu Hc Hinf.
+  apply (bw_write_zc_decodes compress (o_compress o) fp o sizes inp bs true inflate H Ho Hi Hs Hn); [|exact Hu|exact Hc|exact Hinf].
+  intros _. unfold bw_write_z, bw_write_zc in H.
+  destruct (bw_collect fp o sizes inp) as [[[[ids outs] sum] data]| | |] eqn:Hcol; try discriminate.
+  exact (sorted_names_increasing fp o sizes inp ids outs sum data Hsort Hcol).
+Qed.
+Print Assumptions C09_decode_encode_compressed.
+
+Theorem C09_decode_encode_compressed_multipass : forall compress fp o sizes inp bs inflate,
+  bw_write_multipass_z compress fp o sizes inp = Ok bs -> opts_ok o -> input_ok sizes inp -> Nlen bs < U64 ->
+  Forall (fun c : name => c <> []) (map fst (runs inp)) ->
+  o_sort_all o = true ->
+  manual_u32 o ->
+  (forall b, compress b <> []) -> (o_compress o = true -> inflate_ok compress bs inflate) ->
+  exists ids outs sum data kept ubuf,
+    bw_collect fp o sizes inp = Ok (ids, outs, sum, data)
+    /\ inc_from 0 kept /\ (ubuf = 0 <-> o_compress o = false)
+    /\ decode bs inflate = Some (content_of fp o sizes ids outs sum ubuf kept).
+Proof.
+  intros compress fp o sizes inp bs inflate H Ho Hi Hs Hn Hsort Hu Hc Hinf.
+  apply (bw_write_multipass_zc_decodes compress (o_compress o) fp o sizes inp bs true inflate H Ho Hi Hs Hn); [|exact Hu|exact Hc|exact Hinf].
+  intros _. unfold bw_write_multipass_z, bw_write_multipass_zc in H.
+  destruct (bw_collect fp o sizes inp) as [[[[ids outs] sum] data]| | |] eqn:Hcol; try discriminate.
+  exact (sorted_names_increasing fp o sizes inp ids outs sum data Hsort Hcol).
+Qed.
+Print Assumptions C09_decode_encode_compressed_multipass.
+
 
 (* the same without any assumption on the order of the chromosomes, for the decoder that tolerates
    unsorted chromosome keys (and nothing else) *)
@@ -175,7 +218,7 @@ Theorem C09_decode_encode_lenient : forall fp o sizes inp bs inflate,
   exists ids outs sum data kept,
     bw_collect fp o sizes inp = Ok (ids, outs, sum, data)
     /\ inc_from 0 kept
-    /\ decode_lenient bs inflate = Some (content_of fp o sizes ids outs sum kept).
+    /\ decode_lenient bs inflate = Some (content_of fp o sizes ids outs sum 0 kept).
 Proof.
   intros fp o sizes inp bs inflate [H|H] Ho Hi Hs Hn Hu1 Hu2.
   - destruct (bw_write_decodes fp o sizes inp bs false inflate H Ho Hi Hs Hn ltac:(discriminate) Hu1)
@@ -268,7 +311,7 @@ Example C09_whole_file_example : exists bs ids outs sum data,
   /\ opts_ok c09_ex_opts /\ input_ok c09_ex_sizes c09_ex_input /\ Nlen bs < U64
   /\ Forall (fun c : name => c <> []) (map fst (runs c09_ex_input)) /\ o_sort_all c09_ex_opts = true
   /\ Forall (fun z => z < W32) (zoom_sizes_single c09_ex_opts)
-  /\ decode bs (fun _ _ => None) = Some (content_of ieee c09_ex_opts c09_ex_sizes ids outs sum [5; 40])
+  /\ decode bs (fun _ _ => None) = Some (content_of ieee c09_ex_opts c09_ex_sizes ids outs sum 0 [5; 40])
   /\ map (fun r => (fr_chrom r, fr_start r, fr_end r)) (recs_of outs) = [(0, 0, 5); (0, 5, 12); (0, 20, 30); (1, 3, 4)]
   /\ Nlen bs = 1342.
 Proof.
@@ -284,4 +327,23 @@ Proof.
   split; [cbn; repeat constructor; discriminate|]. split; [reflexivity|].
   split; [apply Forall_forall; intros z Hz; vm_compute in Hz; unfold W32; destruct Hz as [<-|[<-|[]]]; lia|].
   split; [vm_compute; reflexivity|]. split; vm_compute; reflexivity.
+Qed.
+
+(* a compressed file: a toy compressor (prefix each block with its length byte pair) and its inverse
+   as inflate oracle meet the hypotheses of C09_decode_encode_compressed; buffer size 64 = largest block (a zoom section of two records) *)
+Definition toy_compress (b : list N) : list N := 255 :: 254 :: b.
+Definition toy_inflate (img : list N) (off size : N) : option (list N) :=
+  match slice img off (N.to_nat size) with Some (255 :: 254 :: b) => Some b | _ => None end.
+Definition c09_exz_opts : opts :=
+  {| o_compress := true; o_ips := 2; o_bs := 2; o_izoom := 10; o_maxzooms := 10; o_manual := Some [5; 40]; o_sort_all := true |}.
+Example C09_compressed_file_example : exists bs ids outs sum data,
+  bw_write_z toy_compress ieee c09_exz_opts c09_ex_sizes c09_ex_input = Ok bs
+  /\ bw_collect ieee c09_exz_opts c09_ex_sizes c09_ex_input = Ok (ids, outs, sum, data)
+  /\ (forall b, toy_compress b <> []) /\ inflate_ok toy_compress bs (toy_inflate bs)
+  /\ decode bs (toy_inflate bs) = Some (content_of ieee c09_exz_opts c09_ex_sizes ids outs sum 64 [5; 40]).
+Proof.
+  do 5 eexists. split; [vm_compute; reflexivity|]. split; [vm_compute; reflexivity|].
+  split; [discriminate|]. split.
+  - intros off b H. unfold toy_inflate. rewrite (has_at_slice_N _ off (toy_compress b) _ H eq_refl). reflexivity.
+  - vm_compute. reflexivity.
 Qed.
